@@ -214,7 +214,7 @@ Theorem c03_history_colwidth : forall W e json (h : list top),
 Proof. exact text_history_colwidth. Qed.
 Print Assumptions c03_history_colwidth.
 
-(* RENDER-TIME CALLBACKS THAT CHANGE CELLS (Model/TextPass.v, Spec/TextPassSpec.v,
+(* RENDER-TIME CALLBACKS THAT CHANGE CELLS (Model/TextLive.v, Spec/TextPassSpec.v,
    Proofs/TextPassProofs.v).  `regs` are the callbacks registered on the table,
    its columns, rows and cells in registration order - the measuring callback
    of every text wrapper among them, where texttable.Wrap was called; an
@@ -222,7 +222,7 @@ Print Assumptions c03_history_colwidth.
    content and calls Cell.Update.  `render_seq W d regs t n` are n successive
    Render() calls; `spec_view regs t j` is the table whose cells are as the
    LAST measuring callback of render j found them. *)
-From Tab Require Import Model.TextPass Spec.TextPassSpec Proofs.TextPassProofs.
+From Tab Require Import Model.TextLive Spec.TextPassSpec Proofs.TextLiveProofs.
 Local Open Scope nat_scope.
 
 (* Whatever the callbacks change and whenever they run, every render lays out
